@@ -6,7 +6,7 @@
     written for AddHandler, the call/return labels, Stop, the loop, the watcher) and the reason
     clauses behind code 6 (state-level counterpart: RouterLife/Local.v [RInv], [stop_is_local]). *)
 From WM Require Import Base.Prelude Base.Count RouterLife.Model RouterLife.Monitor RouterLife.Inv
-                       RouterLife.ProofsA RouterLife.ProofsB RouterLife.Local.
+                       RouterLife.ProofsA RouterLife.ProofsB RouterLife.Local RouterLife.Theorems.
 From RecordUpdate Require Import RecordSet.
 Import RecordSetNotations.
 
@@ -38,7 +38,7 @@ Proof.
   all: try (split; [congruence|intros; discriminate]).
 Qed.
 
-Definition okbad (m : mstate) : Prop := m_bad m = 0 \/ m_bad m = 6.
+Definition okbad (m : mstate) : Prop := m_bad m = 0 \/ m_bad m = 1 \/ m_bad m = 6 \/ m_bad m = 10.
 
 Ltac dK K := destruct K as [K1 K2 K3 K4 K5 K6 K7 K8 K9 K10 K11 K12 K13].
 
@@ -70,8 +70,10 @@ Lemma minv_note s m : MInv s m -> MInv s (note_reason m).
 Proof. intros K. unfold note_reason. destruct (all_reason m); [|exact K]. eapply minv_mon; eauto. Qed.
 Lemma okbad_note m : okbad m -> okbad (note_reason m).
 Proof. unfold note_reason, okbad. destruct (all_reason m); auto. Qed.
-Lemma okbad_bad6 m : okbad m -> okbad (bad m 6).
-Proof. unfold okbad, bad. intros [E|E]; rewrite E; simpl; auto. Qed.
+Lemma okbad_bad m c : c = 1 \/ c = 6 \/ c = 10 -> okbad m -> okbad (bad m c).
+Proof. unfold okbad, bad. intros C B. destruct (m_bad m) eqn:E; simpl; [intuition|rewrite E; exact B]. Qed.
+Lemma okbad_same m m' : m_bad m' = m_bad m -> okbad m -> okbad m'.
+Proof. unfold okbad. intros ->. auto. Qed.
 
 Ltac hsame := intros ?h; simpl; unfold set_h; simpl; upds; simpl; auto.
 Ltac mframe K := eapply minv_frame; [exact K | try reflexivity | try hsame | try reflexivity | try hsame | try hsame
@@ -133,3 +135,350 @@ Qed.
 
 
 
+
+Lemma minv_thr s m t q : MInv s m -> thr s t <> TMain ->
+  (forall h a, q <> TStopRead h a) -> (forall h a, q <> TStopCall h a) -> q <> TRunCheck ->
+  MInv (set_t s t q) m.
+Proof.
+  intros K NM N1 N2 N3. dK K. constructor; simpl; auto.
+  - intros t' h a X [Y|Y]; (updt t t'; [congruence|eauto]).
+  - intros X. destruct (K9 X) as [A B]. split; auto.
+    destruct (Nat.eq_dec (maint s) t) as [E|E]; [exfalso; apply NM; rewrite <- E; exact B | rewrite upd_other by exact E; exact B].
+  - destruct K10 as [A B]. split; auto. intros t' X. updt t t'; [congruence|eauto].
+Qed.
+
+Lemma cl_mframe s me p c s1 p' : cl_step s me p c = Some (s1, p') ->
+  nexth s1 = nexth s /\ (forall h, h_pub (hs s1 h) = h_pub (hs s h)) /\ pubClosed s1 = pubClosed s
+  /\ (forall h, h_subs (hs s1 h) = h_subs (hs s h))
+  /\ (forall h, h_startedCh (hs s h) = true -> h_startedCh (hs s1 h) = true)
+  /\ thr s1 = thr s /\ isRunning s1 = isRunning s /\ mainp s1 = mainp s /\ maint s1 = maint s /\ run_n s1 = run_n s.
+Proof.
+  unfold cl_step, close_unstarted. intros X. destruct p, c; try discriminate X; destr X; injection X as <- _; simpl;
+    repeat split; auto; intros h; destruct (removable (hs s h)); simpl; auto.
+Qed.
+
+(** labels whose only events are ones the monitor ignores or that set fields MInv does not mention *)
+Lemma minv_mainp s m p' : MInv s m -> mainp s <> RNone -> p' <> RNone ->
+  (main_past_lock p' = true -> main_past_lock (mainp s) = true) -> MInv (s <| mainp := p' |>) m.
+Proof.
+  intros K N N' P. dK K. constructor; simpl; auto.
+  destruct K10 as [A B]. split; auto.
+Qed.
+
+Ltac okb B := first [exact B | eapply okbad_same; [|exact B]; reflexivity].
+
+Lemma mstep_simple s m l s' evs : SInv s -> fix4 s = true -> MInv s m -> okbad m ->
+  (l = LCancel \/ l = LObsRunning \/
+   exists h, l = LStoppedGet h \/ l = LObsStarted h \/ l = LObsStopped h \/ l = LSubEnd h \/ l = LRecv h
+             \/ l = LPublish h \/ l = LSubCtx h \/ (exists b, l = LHC h b)) ->
+  step s l = Some (s', evs) -> MInv s' (mon_run m evs) /\ okbad (mon_run m evs).
+Proof.
+  intros I F4 K B [->|[->|(h & [->|[->|[->|[->|[->|[->|[->|(b & ->)]]]]]]])]] H; unfold step in H.
+  - (* LCancel *) injection H as <- <-. simpl. split; [|okb B].
+    eapply minv_mon; [mframe K|reflexivity..].
+  - (* LObsRunning *) destruct (runningCh s) eqn:R; [|discriminate]. injection H as <- <-. simpl.
+    assert (K' : MInv s (m <| m_running := true |>)).
+    { dK K. constructor; simpl; auto. intros _.
+      apply (i_isrun _ I). pose proof (i_running _ I R) as X. destruct (mainp s); try discriminate X; discriminate. }
+    destruct (m_closecalled m || forallb (m_subs m) (seq 0 (m_n_at_run m))).
+    + split; [exact K'|okb B].
+    + split; [now apply minv_bad|]. apply okbad_bad; auto.
+  - (* LStoppedGet *) destruct (Nat.ltb h (nexth s)); [|discriminate]. injection H as <- <-. simpl.
+    destruct (m_sobs m h) eqn:So; simpl; [|split; [exact K|exact B]].
+    apply (k_sobs _ _ K) in So. destruct (i_hrec _ I h). destruct (r_fix4 F4 (or_introl (r_sch So))) as [_ SS].
+    rewrite SS. simpl. split; [exact K|exact B].
+  - (* LObsStarted *) destr H. injection H as <- <-. bools. simpl. split; [|okb B].
+    dK K. constructor; simpl; auto. intros h'. unfold upd. destruct (Nat.eqb h' h) eqn:Q; auto.
+    apply Nat.eqb_eq in Q. subst. auto.
+  - (* LObsStopped *) destr H. injection H as <- <-. simpl. split; [|okb B]. eapply minv_mon; [exact K|reflexivity..].
+  - (* LSubEnd *) destr H. injection H as <- <-. simpl. split.
+    + apply minv_note. eapply minv_mon; [mframe K|reflexivity..].
+    + apply okbad_note. okb B.
+  - (* LRecv *) destr H. injection H as <- <-. simpl. split; [mframe K|exact B].
+  - (* LPublish *)
+    destruct (h_inflight (hs s h)) eqn:Fl; [discriminate|]. injection H as <- <-. simpl.
+    assert (Hlt : h < nexth s) by (eapply touched_lt; eauto; intros X; rewrite X in Fl; discriminate).
+    assert (K' : MInv (set_h s h (hs s h <| h_inflight := n |>)) m) by mframe K.
+    destruct (h_pub (hs s h)) eqn:P; simpl; [|split; [exact K'|exact B]].
+    destruct (pubClosed s p) eqn:PC; simpl; [|split; [exact K'|exact B]].
+    rewrite (k_pub _ _ K h Hlt), P, (k_pubclosed _ _ K p), PC. split; [exact K'|exact B].
+  - (* LSubCtx *) destr H. injection H as <- <-. simpl. split; [mframe K|exact B].
+  - (* LHC *)
+    destruct (h_hc (hs s h)); try discriminate H. unfold close_sub in H.
+    destr H; injection H as <- <-; simpl; (split; [|exact B]);
+      (eapply minv_frame; [exact K|reflexivity| | reflexivity | | |reflexivity..]);
+      intros h'; simpl; unfold set_h; simpl; upds; simpl; auto;
+      try (destruct (Nat.eqb _ _); simpl; auto).
+Qed.
+
+Lemma mstep_add s m pub hon sub s' evs : SInv s -> MInv s m -> okbad m ->
+  step s (LAdd pub hon sub) = Some (s', evs) -> MInv s' (mon_run m evs) /\ okbad (mon_run m evs).
+Proof.
+  intros I K B H. unfold step in H. destruct (hlock s) eqn:HL; [discriminate|]. cbv zeta in H.
+  simpl fix14 in H. simpl hadded in H. simpl wat in H.
+  assert (G : forall s2, nexth s2 = S (nexth s) ->
+               hs s2 = upd (hs s) (nexth s) (h0 <| h_pub := pub |> <| h_hon := hon |> <| h_sub := sub |> <| h_inmap := true |>) ->
+               pubClosed s2 = pubClosed s -> thr s2 = thr s -> isRunning s2 = isRunning s -> mainp s2 = mainp s ->
+               maint s2 = maint s -> run_n s2 = run_n s ->
+               MInv s2 (m <| m_n := S (m_n m) |> <| m_pub := upd (m_pub m) (m_n m) pub |>)).
+  { intros s2 E1 E2 E3 E4 E5 E6 E7 E8.
+    pose proof (i_fresh _ I) as Fr. pose proof (i_run_n_le _ I) as RL. dK K.
+    constructor; simpl; rewrite ?E1, ?E2, ?E3, ?E4, ?E5, ?E6, ?E7, ?E8, ?K1; auto; try lia.
+    all: try solve [intros h Hh; unfold upd; destruct (Nat.eqb h (nexth s)) eqn:Q; simpl; [reflexivity|];
+                    apply K2; apply Nat.eqb_neq in Q; lia].
+    all: try solve [intros h; unfold upd; destruct (Nat.eqb h (nexth s)) eqn:Q; simpl; auto;
+                    apply Nat.eqb_eq in Q; subst; rewrite K4, Fr by lia; reflexivity].
+    all: try solve [intros h X; unfold upd; destruct (Nat.eqb h (nexth s)) eqn:Q; simpl; auto;
+                    apply Nat.eqb_eq in Q; subst; apply K5 in X; rewrite Fr in X by lia; discriminate].
+    all: try solve [intros t; specialize (K13 t); lia]. }
+  destr H; injection H as <- <-; simpl; (split; [|okb B]);
+    first [apply G; reflexivity | eapply minv_mon; [apply G; reflexivity|reflexivity..]].
+Qed.
+
+Lemma mstep_calls s m l s' evs : SInv s -> MInv s m -> okbad m ->
+  (exists t, l = LRunCall t \/ (exists par, l = LRHCall t par) \/ (exists h, l = LStopCall t h) \/ l = LCloseCall t) ->
+  step s l = Some (s', evs) -> MInv s' (mon_run m evs) /\ okbad (mon_run m evs).
+Proof.
+  intros I K B (t & [-> | [(par & ->) | [(h & ->) | ->]]]) H; unfold step in H;
+    destruct (thr s t) eqn:E; try discriminate H.
+  - (* LRunCall *) injection H as <- <-. simpl.
+    assert (Ir := k_running _ _ K). assert (NM : thr s t <> TMain) by congruence.
+    split; [|destruct (m_runcalled m); okb B].
+    dK K. destruct K10 as [KA KB].
+    destruct (m_runcalled m) eqn:RC; constructor; simpl; rewrite ?K1; auto; try lia.
+    all: try (intros t' h a X [Y|Y]; (updt t t'; [discriminate|eauto])).
+    all: try (intros t'; unfold upd; destruct (Nat.eqb t' t); auto).
+    all: try (intros X; destruct (K9 X) as [A1 A2]; split;
+              [unfold upd; destruct (Nat.eqb (maint s) t) eqn:Q; auto; apply Nat.eqb_eq in Q; congruence
+              |destruct (Nat.eq_dec (maint s) t) as [Q|Q]; [congruence|rewrite upd_other by exact Q; exact A2]]).
+    all: try (split; [auto|intros t' X; auto]).
+    all: try (split; [intros X; specialize (KA X); congruence|intros; reflexivity]).
+    all: try (intros X; exfalso; assert (Y : mainp s <> RNone) by (intros Z; rewrite Z in X; discriminate);
+              specialize (KA Y); congruence).
+    all: try solve [eauto | intros X; eapply K8; eauto | intros X; apply Ir; exact X].
+  - (* LRHCall *)
+    injection H as <- <-. assert (NM : thr s t <> TMain) by congruence.
+    assert (K' : MInv (set_t s t (TRH par HCheck)) (m <| m_rh_n := upd (m_rh_n m) t (m_n m) |>)).
+    { pose proof (minv_thr s m t (TRH par HCheck) K NM) as K'.
+      specialize (K' ltac:(discriminate) ltac:(discriminate) ltac:(discriminate)).
+      assert (E1 := k_n _ _ K). dK K'. constructor; simpl; auto.
+      intros t'. unfold upd. destruct (Nat.eqb t' t); auto. simpl in *. lia. }
+    destruct par; simpl; (split; [|okb B]); first [exact K' | eapply minv_mon; [exact K'|reflexivity..]].
+  - (* LStopCall *)
+    destruct (Nat.ltb h (nexth s)) eqn:Hl; [|discriminate]. injection H as <- <-. simpl.
+    split; [apply minv_note|apply okbad_note; okb B].
+    assert (S5 := k_sobs _ _ K). dK K. constructor; simpl; auto.
+    + intros t' h' a. unfold upd at 1. destruct (Nat.eqb t' t) eqn:Q.
+      * apply Nat.eqb_eq in Q. subst. rewrite upd_same. intros X [Y|Y]; [|discriminate].
+        injection Y as <- <-. apply S5 in X. exact X.
+      * apply Nat.eqb_neq in Q. rewrite upd_other by exact Q. eauto.
+    + intros X. destruct (K9 X) as [A1 A2]. split; auto.
+      destruct (Nat.eq_dec (maint s) t) as [Q|Q]; [congruence|rewrite upd_other by exact Q; exact A2].
+    + destruct K10 as [A1 A2]. split; auto. intros t' X. updt t t'; [discriminate|eauto].
+  - (* LCloseCall *)
+    injection H as <- <-. simpl. assert (NM : thr s t <> TMain) by congruence.
+    split; [|okb B]. eapply minv_mon; [apply minv_thr; [exact K|exact NM|discriminate..]|reflexivity..].
+Qed.
+
+Lemma mstep_loop s m h s' evs : SInv s -> MInv s m -> okbad m ->
+  step s (LLoop h) = Some (s', evs) -> MInv s' (mon_run m evs) /\ okbad (mon_run m evs).
+Proof.
+  intros I K B H. unfold step in H. destruct (h_loop (hs s h)) eqn:EL; try discriminate H.
+  - destr H. injection H as <- <-. simpl. split; [mframe K|exact B].
+  - destruct (h_pub (hs s h)) eqn:P; injection H as <- <-; simpl; [|split; [mframe K|exact B]].
+    assert (K' : MInv (set_h s h (hs s h <| h_loop := LWgDone |>) <| pubClosed := upd (pubClosed s) p true |>)
+                      (m <| m_pubclosed := upd (m_pubclosed m) p true |>)).
+    { assert (K0 : MInv (set_h s h (hs s h <| h_loop := LWgDone |>)) m) by mframe K.
+      dK K0. constructor; simpl in *; auto.
+      intros p'. unfold upd. destruct (Nat.eqb p' p); auto. }
+    match goal with |- context [if ?c then _ else _] => destruct c end.
+    + split; [exact K'|okb B].
+    + split; [now apply minv_bad|]. apply okbad_bad; auto.
+  - destruct (hwg s); injection H as <- <-; simpl; (split; [mframe K|exact B]).
+  - destr H. injection H as <- <-. simpl. split; [mframe K|exact B].
+  - injection H as <- <-. simpl. split; [mframe K|exact B].
+Qed.
+
+Lemma mstep_watch s m c s' evs : SInv s -> MInv s m -> okbad m ->
+  step s (LWatch c) = Some (s', evs) -> MInv s' (mon_run m evs) /\ okbad (mon_run m evs).
+Proof.
+  intros I K B H. unfold step in H. destruct (wat s) eqn:E; try discriminate H.
+  5: { destruct (cl_step s OWatch p c) as [[s1 p']|] eqn:CL; [|discriminate].
+       pose proof (cl_mframe _ _ _ _ _ _ CL) as (F1 & F2 & F3 & F4 & F5 & F6 & F7 & F8 & F9 & F10).
+       destruct p'; injection H as <- <-; simpl; (split; [|exact B]); (eapply minv_frame; [exact K|simpl; auto..]). }
+  all: destr H; injection H as <- <-; simpl; (split; [mframe K|exact B]).
+Qed.
+
+Lemma mon_run_app m a b : mon_run m (a ++ b) = mon_run (mon_run m a) b.
+Proof. unfold mon_run. apply fold_left_app. Qed.
+
+Lemma minv_main_gen s s' m : MInv s m ->
+  nexth s' = nexth s -> hs s' = hs s -> pubClosed s' = pubClosed s -> thr s' = thr s -> isRunning s' = isRunning s ->
+  maint s' = maint s -> mainp s <> RNone -> mainp s' <> RNone ->
+  (main_past_lock (mainp s') = true -> m_n_at_run m <= run_n s') -> MInv s' m.
+Proof.
+  intros K E1 E2 E3 E4 E5 E6 N N' P. dK K. constructor; rewrite ?E1, ?E2, ?E3, ?E4, ?E5, ?E6; auto.
+  destruct K10 as [A B]. split; auto.
+Qed.
+
+Lemma mstep_main s m c s' evs : SInv s -> MInv s m -> okbad m ->
+  step s (LMain c) = Some (s', evs) -> MInv s' (mon_run m evs) /\ okbad (mon_run m evs).
+Proof.
+  intros I K B H. unfold step in H. destruct (mainp s) eqn:E; try discriminate H.
+  - (* RWatch *) destr H; injection H as <- <-; simpl; (split; [|exact B]);
+    (eapply minv_main_gen; [exact K|reflexivity..| | |]; simpl; rewrite ?E; try discriminate).
+  - (* RRH *)
+    destruct (rh_step s OMain PRun p c) as [[[s1 p'] e1]|] eqn:RH; [|discriminate].
+    assert (Hh : rhl p = true -> holder s OMain PRun p) by (intros R; apply holder_main; auto).
+    destruct (rh_minv s m OMain PRun p c s1 p' e1 I K B Hh RH) as [K1 B1].
+    pose proof (rh_mframe _ _ _ _ _ _ _ _ RH) as (F1 & F2 & F3 & F4 & F5 & F6 & F7 & F8 & F9 & F10).
+    assert (N1 : mainp s1 <> RNone) by (rewrite F7, E; discriminate).
+    assert (P12 := k_atrun2 _ _ K1). assert (P11 := k_atrun _ _ K1). rewrite F7, E in P12. simpl in P12.
+    assert (PL : rhl p' = true -> p' <> HLoop -> rhl p = true).
+    { unfold rh_step in RH. destruct p, c; try discriminate RH; destr RH; injection RH as _ <- _; simpl; auto; congruence. }
+    assert (PR : p' = HRet true -> rhl p = true).
+    { unfold rh_step in RH. destruct p, c; try discriminate RH; destr RH; injection RH as _ <- _; simpl; auto; discriminate. }
+    destruct p' as [| | | | | |[]].
+    all: try (destruct p; injection H as <- <-; (split; [|exact B1]);
+              (eapply minv_main_gen; [exact K1|reflexivity..|exact N1| |]; simpl; try discriminate;
+               try (intros _; rewrite ?F1; first [lia | apply P12; reflexivity | apply P12; apply PL; [reflexivity|discriminate] | discriminate
+                      | exfalso; unfold rh_step in RH; destruct c; try discriminate RH; destr RH; try discriminate RH; injection RH; intros; congruence]))).
+    all: try solve [injection H as <- <-; split; [|exact B1];
+      eapply minv_main_gen; [exact K1|reflexivity..|exact N1| |]; simpl; try discriminate;
+      intros _; apply P12; apply PR; reflexivity].
+    all: try solve [injection H as <- <-; rewrite mon_run_app; simpl; split; [|okb B1];
+      assert (K2 : MInv (s1 <| rcancel := true |> <| mainp := RDone false |>) (mon_run m e1))
+        by (eapply minv_main_gen; [exact K1|reflexivity..|exact N1| |]; simpl; try discriminate);
+      dK K2; constructor; simpl in *; auto; intros _; rewrite F6; apply (i_isrun _ I); rewrite E; discriminate].
+    injection H as <- <-. rewrite mon_run_app. simpl.
+    assert (K2 : MInv (s1 <| rcancel := true |> <| mainp := RDone false |>) (mon_run m e1)).
+    { eapply minv_main_gen; [exact K1|reflexivity..|exact N1| |]; simpl; try discriminate. }
+    split; [|okb B1]. clear K1.
+    dK K2. constructor; simpl in *; auto. intros _. rewrite F6. apply (i_isrun _ I). rewrite E. discriminate.
+  - destr H. injection H as <- <-. simpl. split; [|exact B].
+    assert (P12 := k_atrun2 _ _ K). rewrite E in P12.
+    eapply minv_main_gen; [exact K|reflexivity..| | |]; simpl; rewrite ?E; try discriminate. auto.
+  - destr H. injection H as <- <-. simpl. split; [|exact B].
+    assert (P12 := k_atrun2 _ _ K). rewrite E in P12.
+    eapply minv_main_gen; [exact K|reflexivity..| | |]; simpl; rewrite ?E; try discriminate. auto.
+  - destr H. injection H as <- <-. simpl.
+    assert (N : mainp s <> RNone) by (rewrite E; discriminate).
+    destruct (k_main2 _ _ K N) as [M2 _]. rewrite M2. simpl. split; [|okb B].
+    assert (P12 := k_atrun2 _ _ K). rewrite E in P12.
+    assert (K2 : MInv (s <| mainp := RDone true |>) m).
+    { eapply minv_main_gen; [exact K|reflexivity..| | |]; simpl; rewrite ?E; try discriminate. auto. }
+    dK K2. constructor; simpl in *; auto. intros _. apply (i_isrun _ I). rewrite E. discriminate.
+Qed.
+
+Lemma minv_thr_stop s m t h a : MInv s m -> thr s t = TStopRead h a -> MInv (set_t s t (TStopCall h a)) m.
+Proof.
+  intros K E. dK K. constructor; simpl; auto.
+  - intros t' h' a' X [Y|Y]; (updt t t'; [|eauto]); [discriminate|]. injection Y as <- <-. eapply K6; eauto.
+  - intros X. destruct (K9 X) as [A B]. split; auto.
+    destruct (Nat.eq_dec (maint s) t) as [Q|Q]; [congruence|rewrite upd_other by exact Q; exact B].
+  - destruct K10 as [A B]. split; auto. intros t' X. updt t t'; [discriminate|eauto].
+Qed.
+
+Lemma mstep_lt s m t c s' evs : SInv s -> fix4 s = true -> MInv s m -> okbad m ->
+  step s (LT t c) = Some (s', evs) -> MInv s' (mon_run m evs) /\ okbad (mon_run m evs).
+Proof.
+  intros I F4 K B H. unfold step in H. destruct (thr s t) eqn:E; try discriminate H.
+  - (* TRunCheck *)
+    destruct c; try discriminate H. destruct (isRunning s) eqn:R.
+    + injection H as <- <-. simpl. split; [|okb B].
+      assert (K' : MInv (set_t s t (TRunDone false)) m) by (apply minv_thr; auto; try discriminate; congruence).
+      dK K'. constructor; simpl in *; auto.
+    + destruct (mainp s) eqn:M; try discriminate H. injection H as <- <-. simpl. split; [|exact B].
+      assert (R2 : m_run2 m t = false).
+      { destruct (m_run2 m t) eqn:X; auto. apply (k_run2 _ _ K) in X. congruence. }
+      assert (RC : m_runcalled m = true) by (destruct (k_called _ _ K) as [_ X]; eapply X; exact E).
+      assert (A11 := k_atrun _ _ K).
+      dK K. constructor; simpl; auto; try discriminate.
+      all: try solve [intros t' h a X [Y|Y]; (updt t t'; [discriminate|eauto])].
+      all: try solve [intros _; split; [exact R2|now rewrite upd_same]].
+      all: try solve [split; [auto|intros t' X; auto]].
+  - (* TRH *)
+    destruct (rh_step s (OThr t) par p c) as [[[s1 p'] e1]|] eqn:RH; [|discriminate]. injection H as <- <-.
+    assert (Hh : rhl p = true -> holder s (OThr t) par p) by (intros R; apply holder_thr; auto).
+    destruct (rh_minv s m (OThr t) par p c s1 p' e1 I K B Hh RH) as [K1 B1].
+    pose proof (rh_mframe _ _ _ _ _ _ _ _ RH) as (F1 & F2 & F3 & F4' & F5 & F6 & F7 & F8 & F9 & F10).
+    assert (K2 : MInv (set_t s1 t (TRH par p')) (mon_run m e1)).
+    { apply minv_thr; auto; try discriminate. rewrite F5, E. discriminate. }
+    rewrite mon_run_app. destruct p' as [| | | | | |[]]; simpl; try (split; [exact K2|exact B1]).
+    match goal with |- context [if ?c then _ else _] => destruct c end.
+    + split; [exact K2|exact B1].
+    + split; [now apply minv_bad|]. apply okbad_bad; auto.
+  - (* TStopRead *)
+    destruct c; try discriminate H. destruct (h_started (hs s h)) eqn:St; injection H as <- <-; simpl.
+    + split; [now apply minv_thr_stop|exact B].
+    + destruct (m_stopafter m t) eqn:SA.
+      * exfalso. assert (A : after = true) by (eapply (k_stopafter _ _ K); eauto).
+        destruct (i_stop _ I t h after (or_introl E)) as [_ X]. specialize (X A).
+        destruct (i_hrec _ I h). rewrite (r_sch X) in St. discriminate.
+      * split; [|exact B]. apply minv_thr; auto; try discriminate. congruence.
+  - (* TStopCall *)
+    destruct c; try discriminate H. destruct (h_stopFn (hs s h)) eqn:Sf; injection H as <- <-; simpl.
+    + split; [|exact B]. apply minv_thr; try discriminate; [mframe K|simpl; congruence].
+    + destruct (m_stopafter m t) eqn:SA.
+      * exfalso. assert (A : after = true) by (eapply (k_stopafter _ _ K); eauto).
+        pose proof (i_stopcall _ I t h after E) as X.
+        destruct (i_hrec _ I h). destruct (r_fix4 F4 (or_introl X)). congruence.
+      * split; [|exact B]. apply minv_thr; auto; try discriminate. congruence.
+  - (* TClose *)
+    destruct (cl_step s (OThr t) p c) as [[s1 p']|] eqn:CL; [|discriminate]. injection H as <- <-.
+    pose proof (cl_mframe _ _ _ _ _ _ CL) as (F1 & F2 & F3 & F4' & F5 & F6 & F7 & F8 & F9 & F10).
+    assert (K1 : MInv s1 m) by (eapply minv_frame; eauto).
+    assert (K2 : MInv (set_t s1 t (TClose p')) m).
+    { apply minv_thr; auto; try discriminate. rewrite F6, E. discriminate. }
+    destruct p'; simpl; split; auto.
+Qed.
+
+Theorem step_minv s m l s' evs : SInv s -> fix4 s = true -> MInv s m -> okbad m ->
+  step s l = Some (s', evs) -> MInv s' (mon_run m evs) /\ okbad (mon_run m evs).
+Proof.
+  intros I F4 K B H. destruct l.
+  - eapply mstep_add; eauto.
+  - eapply mstep_calls; [exact I|exact K|exact B| exists t; left; reflexivity | exact H].
+  - eapply mstep_calls; [exact I|exact K|exact B| exists t; right; left; exists par; reflexivity | exact H].
+  - eapply mstep_calls; [exact I|exact K|exact B| exists t; right; right; left; exists h; reflexivity | exact H].
+  - eapply mstep_calls; [exact I|exact K|exact B| exists t; right; right; right; reflexivity | exact H].
+  - eapply mstep_simple; [exact I|exact F4|exact K|exact B| left; reflexivity | exact H].
+  - eapply mstep_simple; [exact I|exact F4|exact K|exact B| right; right; exists h; left; reflexivity | exact H].
+  - eapply mstep_simple; [exact I|exact F4|exact K|exact B| right; left; reflexivity | exact H].
+  - eapply mstep_simple; [exact I|exact F4|exact K|exact B| right; right; exists h; right; left; reflexivity | exact H].
+  - eapply mstep_simple; [exact I|exact F4|exact K|exact B| right; right; exists h; right; right; left; reflexivity | exact H].
+  - eapply mstep_simple; [exact I|exact F4|exact K|exact B| right; right; exists h; right; right; right; left; reflexivity | exact H].
+  - eapply mstep_simple; [exact I|exact F4|exact K|exact B| right; right; exists h; right; right; right; right; left; reflexivity | exact H].
+  - eapply mstep_simple; [exact I|exact F4|exact K|exact B| right; right; exists h; right; right; right; right; right; left; reflexivity | exact H].
+  - eapply mstep_simple; [exact I|exact F4|exact K|exact B| right; right; exists h; right; right; right; right; right; right; left; reflexivity | exact H].
+  - eapply mstep_lt; eauto.
+  - eapply mstep_main; eauto.
+  - eapply mstep_watch; eauto.
+  - eapply mstep_loop; eauto.
+  - eapply mstep_simple; [exact I|exact F4|exact K|exact B| right; right; exists h; right; right; right; right; right; right; right; exists closing; reflexivity | exact H].
+Qed.
+
+Theorem hist_accepted ls : forall s m, SInv s -> fix4 s = true -> MInv s m -> okbad m ->
+  MInv (run s ls) (mon_run m (hist s ls)) /\ okbad (mon_run m (hist s ls)).
+Proof.
+  induction ls as [|l ls IH]; intros s m I F4 K B; simpl; [split; assumption|].
+  destruct (step s l) as [[s' evs]|] eqn:E; [|now apply IH].
+  destruct (step_minv s m l s' evs I F4 K B E) as [K' B']. rewrite mon_run_app.
+  apply IH; auto.
+  - eapply step_sinv; eauto.
+  - rewrite (fix4_step _ _ _ _ E). exact F4.
+Qed.
+
+(** The acceptor raises none of the codes 2, 3, 4, 5, 7 (nor the watchdog codes 8, 9, 11) on the API trace of
+    ANY run of the model with the D4 repair: its verdict is 0 or one of 1, 6, 10.  Not covered: clause 6
+    (its state-level counterpart is [RInv] / [stop_is_local]) and clauses 1 / 10 in the one corner where the
+    WATCHER's Close removed a handler that was added while the router was closing itself. *)
+Theorem monitor_accepts_codes f14 f15 f16 ls :
+  let v := verdict (hist (rinit true f14 f15 f16) ls) in v = 0 \/ v = 1 \/ v = 6 \/ v = 10.
+Proof.
+  unfold verdict. apply (hist_accepted ls (rinit true f14 f15 f16) minit).
+  - apply sinv_init.
+  - reflexivity.
+  - apply minv_init.
+  - left. reflexivity.
+Qed.
